@@ -344,23 +344,87 @@ class Check:
         return not bad
 
     # ---- running both sides ---------------------------------------------------------------------
-    def _run_sharded(self, argv, lines, timeout):
+    def _run_sharded(self, argv, lines, timeout, stall=None):
+        """run [argv] on the case lines, sharded.  One output line per input line.  A process that dies is restarted behind the
+        line it died on (that line answers `DIED rc=..`).  With [stall] (implementation side): a process that produces no output
+        line for [stall] seconds is hung ON THE LINE IT IS WORKING ON: it is killed, that line answers `HANG`, and the rest of the
+        shard is run in a fresh process - so a non-terminating implementation yields a located mismatch, not a dead check."""
         if not lines:
             return []
         n = min(NPROC, max(1, len(lines) // 200))
         shards = [lines[i::n] for i in range(n)]
+        deadline = time.time() + timeout
+
+        def run_once(sh_lines):
+            """-> (outputs received in order, status) with status 'ok' | 'died rc' | 'hang'"""
+            import queue
+            import threading
+            p = subprocess.Popen(argv, stdin=subprocess.PIPE, stdout=subprocess.PIPE, stderr=subprocess.DEVNULL, text=True,
+                                 errors="replace", preexec_fn=_child_limits)
+            data = "\n".join(sh_lines) + "\n"
+
+            def feed():
+                try:
+                    p.stdin.write(data)
+                    p.stdin.close()
+                except (BrokenPipeError, OSError, ValueError):
+                    pass
+            q = queue.Queue()
+
+            def drain():
+                try:
+                    for l in p.stdout:
+                        q.put(l.rstrip("\n"))
+                except (OSError, ValueError):
+                    pass
+                q.put(None)
+            threading.Thread(target=feed, daemon=True).start()
+            threading.Thread(target=drain, daemon=True).start()
+            got = []
+            status = "ok"
+            while len(got) < len(sh_lines):
+                wait = stall if stall else max(1.0, deadline - time.time())
+                if time.time() > deadline:
+                    status = "hang"
+                    break
+                try:
+                    l = q.get(timeout=wait)
+                except queue.Empty:
+                    status = "hang"
+                    break
+                if l is None:
+                    p.wait()
+                    status = "died %s" % p.returncode
+                    break
+                got.append(l)
+            if status == "hang" or p.poll() is None:
+                try:
+                    p.kill()
+                except OSError:
+                    pass
+            try:
+                p.wait(timeout=10)
+            except subprocess.TimeoutExpired:
+                pass
+            if status == "ok" and len(got) < len(sh_lines):
+                status = "died %s" % p.returncode
+            return got, status
 
         def one(sh_lines):
-            p = subprocess.run(argv, input="\n".join(sh_lines) + "\n", stdout=subprocess.PIPE,
-                               stderr=subprocess.PIPE, text=True, timeout=timeout, errors="replace",
-                               preexec_fn=_child_limits)
-            out = p.stdout.split("\n")
-            if out and out[-1] == "":
-                out.pop()
-            if len(out) != len(sh_lines):
-                # process died (abort / stack overflow): mark the rest
-                out = out + ["DIED rc=%s" % p.returncode] * (len(sh_lines) - len(out))
-            return out
+            outs, remaining, restarts = [], list(sh_lines), 0
+            while remaining:
+                got, status = run_once(remaining)
+                outs += got[:len(remaining)]
+                if len(got) >= len(remaining):
+                    break
+                mark = "HANG" if status == "hang" else "DIED rc=%s" % status.split(" ")[-1]
+                outs.append(mark)
+                remaining = remaining[len(got) + 1:]
+                restarts += 1
+                if restarts > 8 or time.time() > deadline:
+                    outs += [mark] * len(remaining)
+                    break
+            return outs
         with ThreadPoolExecutor(max_workers=n) as ex:
             outs = list(ex.map(one, shards))
         res = [None] * len(lines)
@@ -374,7 +438,7 @@ class Check:
 
     def impl(self, lines, binname=None, timeout=1200, args=()):
         exe = os.path.join(CARGO_TARGET, "release", binname or self.prop.lower())
-        return self._run_sharded([exe] + list(args), lines, timeout)
+        return self._run_sharded([exe] + list(args), lines, timeout, stall=float(os.environ.get("VERIF_STALL", "90")))
 
     # ---- protocol --------------------------------------------------------------------------------
     def violation(self, replay, suffix=""):
@@ -1064,3 +1128,295 @@ def _source_tie_with_table_standin(self, which):
 
 
 Check.source_tie = _source_tie_with_table_standin
+
+
+# --- appended (builder B23): translation tie "include" for C14 (and C08: the error kinds of the pre-processor dispatch) —
+# duckscript/src/preprocessor/include_files_preprocessor.rs `run`, preprocessor/mod.rs `run` and the wrappers parse_file /
+# parse_text_with_source_file / parse_text of parser.rs (lib/gen/include_gen.py -> coq/generated/GenIncludeFn.v, proofs
+# coq/theories/IncludeGenTie.v, wrappers coq/props/SrcInclude.v).  Same scheme as PARSER_REST_TIES / RUNNER_REST_TIES: the tie
+# key's own flag (gen_include_understood) only says the generator ran; every generated function has its OWN flag in
+# GenIncludeFn.v, a function the translator does not understand any more gets a stub, its theorems (stated under `flag = true`)
+# hold vacuously, and source_tie("include") then reports exactly that tie as inactive (NOTE + evidence) and does not count its
+# theorems as discharged.  A theorem that needs two functions lists both flags.
+_INC_RS = "duckscript/src/preprocessor/include_files_preprocessor.rs::run"
+INCLUDE_FN_TIES = [
+    (("gen_include_path_understood",), _INC_RS + " (the path of one listed file)", ["Src_include_path"]),
+    (("gen_include_run_understood",), _INC_RS + " (the loop)", ["Src_include_step", "Src_include_run"]),
+    (("gen_preprocess_understood",), "duckscript/src/preprocessor/mod.rs::run", ["Src_include_preprocess"]),
+    (("gen_preprocess_understood", "gen_include_run_understood"), "duckscript/src/preprocessor/mod.rs::run with the include loop",
+     ["Src_include_preprocess_run"]),
+    (("gen_parse_text_understood",), "duckscript/src/parser.rs::parse_text", ["Src_include_parse_text"]),
+    (("gen_parse_text_with_source_file_understood",), "duckscript/src/parser.rs::parse_text_with_source_file",
+     ["Src_include_parse_text_with_source_file"]),
+    (("gen_parse_file_understood",), "duckscript/src/parser.rs::parse_file", ["Src_include_parse_file"]),
+    (("gen_parse_file_understood", "gen_include_run_understood"), "duckscript/src/parser.rs::parse_file with the include loop (recursion)",
+     ["Src_include_knot"]),
+]
+INCLUDE_FLAG_NAMES = {"gen_include_path_understood": "include_path", "gen_include_run_understood": "include_run",
+                      "gen_preprocess_understood": "preprocess", "gen_parse_text_understood": "parse_text",
+                      "gen_parse_text_with_source_file_understood": "parse_text_with_source_file",
+                      "gen_parse_file_understood": "parse_file"}
+Check.SRC_TIES.update({
+    "include": ("GenIncludeFn.v", "gen_include_understood", "props/SrcInclude.vo", "DSP.SrcInclude", [],
+                "the include pre-processor (include_files_preprocessor.rs, preprocessor/mod.rs, parse_file / parse_text of parser.rs)"),
+})
+Check.SRC_TIES_BASE = dict(getattr(Check, "SRC_TIES_BASE", {}))
+Check.SRC_TIES_BASE["include"] = list(Check.SRC_TIES["include"][4])
+Check.SRC_TIES_PARTIAL = tuple(getattr(Check, "SRC_TIES_PARTIAL", ())) + ("include",)
+Check.SRC_TIES["include"][4].extend(t for _f, _w, _ts in INCLUDE_FN_TIES for t in _ts)
+_source_tie_before_include_fns = Check.source_tie
+
+
+def _source_tie_with_include_fns(self, which):
+    ok = _source_tie_before_include_fns(self, which)
+    if which != "include":
+        return ok
+    try:
+        text = open(os.path.join(ROOT, "coq", "generated", "GenIncludeFn.v")).read()
+    except OSError:
+        text = ""
+    info = self.coverage.setdefault("source_translation", {})
+
+    def on(flag):
+        return re.search(r"Definition %s : bool := true\." % flag, text) is not None
+
+    def why_not(flags):
+        out = []
+        for f in flags:
+            if on(f):
+                continue
+            m = re.search(r"\(\* NOT UNDERSTOOD %s: (.*?) \*\)" % re.escape(INCLUDE_FLAG_NAMES[f]), text, re.S)
+            out.append("%s: %s" % (INCLUDE_FLAG_NAMES[f], m.group(1) if m else "generated file missing"))
+        return "; ".join(out)
+    fns = {}
+    for flags, what, thms in INCLUDE_FN_TIES:
+        if all(on(f) for f in flags):
+            fns[what] = {"active": True, "theorems": thms}
+            continue
+        why = why_not(flags)
+        fns[what] = {"active": False, "reason": why}
+        names = ["DSP.SrcInclude.%s" % t for t in thms]
+        self.obligations[:] = [o for o in self.obligations if o not in names]
+        self.discharged[:] = [o for o in self.discharged if o not in names]
+        if isinstance(info.get("include", {}).get("theorems"), list):
+            info["include"]["theorems"] = [t for t in info["include"]["theorems"] if t not in thms]
+        print("NOTE: property=%s translation tie for %s is inactive on this tree (translator: %s); "
+              "the correspondence run is the only tie for it in this run" % (self.prop, what, why), flush=True)
+    info["include_fns"] = {"file": "coq/generated/GenIncludeFn.v", "functions": fns,
+                           "meaning": "each listed function: the hand model (Include.v / IncludePath.v / Parser.preprocess / "
+                                      "IncludeFns.v) equals the mechanical translation of the current source for all inputs "
+                                      "(one flag per generated function)"}
+    return ok
+
+
+Check.source_tie = _source_tie_with_include_fns
+
+
+# --- appended (builder B22): translation tie "var" for C11 — the `run` functions of the variable commands
+# (duckscript_sdk/src/sdk/std/var/{set,set_by_name,get_by_name,is_defined,get_all_var_names,unset_all_vars}/mod.rs), of the scope
+# commands (sdk/std/scope/{clear,push_stack,pop_stack}/mod.rs) and push / pop of duckscript_sdk/src/utils/scope.rs
+# (lib/gen/var_gen.py -> coq/generated/GenVarFn.v, proofs coq/theories/VarGenTie.v, wrappers coq/props/SrcVar.v).  Same scheme as
+# PARSER_REST_TIES / RUNNER_REST_TIES: the tie key's own flag (gen_var_understood) only says the generator ran; every generated
+# function has its OWN flag in GenVarFn.v, a function the translator does not understand any more gets a stub, its theorems
+# (stated under `flag = true`) hold vacuously, and source_tie("var") then reports exactly that tie as inactive (NOTE + evidence)
+# and does not count its theorems as discharged.  A theorem that needs two functions lists both flags (gen_scope_clear_understood
+# is the flag of types/scope.rs::clear in GenAliasFn.v).
+_VAR_STD = "duckscript_sdk/src/sdk/std/"
+VAR_FN_TIES = [
+    (("gen_scope_push_understood",), "duckscript_sdk/src/utils/scope.rs::push", ["Src_var_scope_push"]),
+    (("gen_scope_pop_understood",), "duckscript_sdk/src/utils/scope.rs::pop", ["Src_var_scope_pop"]),
+    (("gen_cmd_set_understood",), _VAR_STD + "var/set/mod.rs::run", ["Src_var_set"]),
+    (("gen_cmd_set_by_name_understood",), _VAR_STD + "var/set_by_name/mod.rs::run", ["Src_var_set_by_name"]),
+    (("gen_cmd_get_by_name_understood",), _VAR_STD + "var/get_by_name/mod.rs::run", ["Src_var_get_by_name"]),
+    (("gen_cmd_is_defined_understood",), _VAR_STD + "var/is_defined/mod.rs::run", ["Src_var_is_defined"]),
+    (("gen_cmd_get_all_var_names_understood",), _VAR_STD + "var/get_all_var_names/mod.rs::run", ["Src_var_get_all_var_names"]),
+    (("gen_cmd_unset_all_vars_understood",), _VAR_STD + "var/unset_all_vars/mod.rs::run", ["Src_var_unset_all_vars"]),
+    (("gen_cmd_clear_scope_understood",), _VAR_STD + "scope/clear/mod.rs::run", ["Src_var_clear_scope"]),
+    (("gen_cmd_scope_push_stack_understood",), _VAR_STD + "scope/push_stack/mod.rs::run", ["Src_var_scope_push_stack"]),
+    (("gen_cmd_scope_pop_stack_understood",), _VAR_STD + "scope/pop_stack/mod.rs::run", ["Src_var_scope_pop_stack"]),
+    (("gen_cmd_clear_scope_understood", "gen_scope_clear_understood"), _VAR_STD + "scope/clear/mod.rs::run with types/scope.rs::clear",
+     ["Src_var_clear_scope_tied"]),
+    (("gen_cmd_scope_push_stack_understood", "gen_scope_push_understood"), _VAR_STD + "scope/push_stack/mod.rs::run with utils/scope.rs::push",
+     ["Src_var_scope_push_stack_tied"]),
+    (("gen_cmd_scope_pop_stack_understood", "gen_scope_pop_understood"), _VAR_STD + "scope/pop_stack/mod.rs::run with utils/scope.rs::pop",
+     ["Src_var_scope_pop_stack_tied"]),
+]
+Check.SRC_TIES.update({
+    "var": ("GenVarFn.v", "gen_var_understood", "props/SrcVar.vo", "DSP.SrcVar", [],
+            "the variable and scope commands (sdk/std/var/*, sdk/std/scope/*: fn run; utils/scope.rs: push / pop)"),
+})
+Check.SRC_TIES_BASE = dict(getattr(Check, "SRC_TIES_BASE", {}))
+Check.SRC_TIES_BASE["var"] = list(Check.SRC_TIES["var"][4])
+Check.SRC_TIES_PARTIAL = tuple(getattr(Check, "SRC_TIES_PARTIAL", ())) + ("var",)
+Check.SRC_TIES["var"][4].extend(t for _f, _w, _ts in VAR_FN_TIES for t in _ts)
+_source_tie_before_var_fns = Check.source_tie
+
+
+def _source_tie_with_var_fns(self, which):
+    ok = _source_tie_before_var_fns(self, which)
+    if which != "var":
+        return ok
+    text = ""
+    for gen in ("GenVarFn.v", "GenAliasFn.v"):
+        try:
+            text += open(os.path.join(ROOT, "coq", "generated", gen)).read() + "\n"
+        except OSError:
+            pass
+    info = self.coverage.setdefault("source_translation", {})
+
+    def on(flag):
+        return re.search(r"Definition %s : bool := true\." % flag, text) is not None
+
+    def why_not(flags):
+        out = []
+        for f in flags:
+            if on(f):
+                continue
+            short = re.sub(r"^gen_(cmd_)?|_understood$", "", f)
+            m = re.search(r"\(\* NOT UNDERSTOOD:? %s: (.*?) \*\)" % re.escape("clear" if short == "scope_clear" else short), text, re.S)
+            out.append("%s: %s" % (short, m.group(1) if m else "generated file missing"))
+        return "; ".join(out)
+    fns = {}
+    for flags, what, thms in VAR_FN_TIES:
+        if all(on(f) for f in flags):
+            fns[what] = {"active": True, "theorems": thms}
+            continue
+        why = why_not(flags)
+        fns[what] = {"active": False, "reason": why}
+        names = ["DSP.SrcVar.%s" % t for t in thms]
+        self.obligations[:] = [o for o in self.obligations if o not in names]
+        self.discharged[:] = [o for o in self.discharged if o not in names]
+        if isinstance(info.get("var", {}).get("theorems"), list):
+            info["var"]["theorems"] = [t for t in info["var"]["theorems"] if t not in thms]
+        print("NOTE: property=%s translation tie for %s is inactive on this tree (translator: %s); "
+              "the correspondence run is the only tie for it in this run" % (self.prop, what, why), flush=True)
+    info["var_fns"] = {"file": "coq/generated/GenVarFn.v", "functions": fns,
+                       "meaning": "each listed function: the hand model (Scope.v: m_cmd on the command the argument vector denotes, "
+                                  "m_push, m_pop, m_step OpNames) equals the mechanical translation of the current source for all "
+                                  "arguments and states, and the translation (every arguments[i] / arguments[1..] an explicit panic "
+                                  "arm) never panics (one flag per generated function)"}
+    return ok
+
+
+Check.source_tie = _source_tie_with_var_fns
+
+
+# --- appended (builder B19): translation tie "findcmds" for C04 / C05 (no-panic content: C07) — get_start, get_end and
+# find_commands of duckscript_sdk/src/utils/instruction_query.rs (lib/gen/findcmds_gen.py -> coq/generated/GenFindCmdsFn.v,
+# proofs coq/theories/FindCmdsGenTie.v, wrappers coq/props/SrcFindCmds.v).  One flag (gen_find_commands_understood) covers the
+# three functions.  The hand model the translation is proved equal to is the index-faithful FlowScanIx.v; the theorems that
+# connect THAT model to the suffix-style scanners of the C04 / C05 developments (FlowScan.find_commands, FlowFn.find_commands_nr)
+# and show it panic-free are props/C04ix.v — they do not depend on the generated file, so source_tie("findcmds") checks them
+# whether or not the translation tie is active on this tree.
+FINDCMDS_THMS = ["Src_findcmds_get_start", "Src_findcmds_get_end", "Src_findcmds_body", "Src_findcmds_eq", "Src_findcmds_total",
+                 "Src_findcmds_checked_total", "Src_findcmds_scan", "Src_findcmds_scan_nr"]
+FINDCMDS_IX_THMS = ["C04_ix_total", "C04_ix_checked_total", "C04_ix_refines", "C04_ix_refines_nr", "C04_ix_scan", "C04_ix_scan_nr",
+                    "C04_ix_find_own_end", "C04_ix_bounds_needed"]
+Check.SRC_TIES.update({
+    "findcmds": ("GenFindCmdsFn.v", "gen_find_commands_understood", "props/SrcFindCmds.vo", "DSP.SrcFindCmds", list(FINDCMDS_THMS),
+                 "duckscript_sdk/src/utils/instruction_query.rs::{get_start, get_end, find_commands}"),
+})
+_source_tie_before_findcmds_ix = Check.source_tie
+
+
+def _source_tie_with_findcmds_ix(self, which):
+    ok = _source_tie_before_findcmds_ix(self, which)
+    if which != "findcmds":
+        return ok
+    names = ["DSP.C04ix.%s" % t for t in FINDCMDS_IX_THMS]
+    okb, _ = self.coq_build(["props/C04ix.vo"])
+    if okb:
+        self.print_assumptions(["DSP.C04ix"], names)
+    else:
+        ok = False
+        self.obligations.extend(names)
+    info = self.coverage.setdefault("source_translation", {})
+    info["findcmds_ix"] = {"file": "coq/props/C04ix.v", "theorems": FINDCMDS_IX_THMS,
+                           "meaning": "the index-faithful model of find_commands (FlowScanIx.v: instructions[line], usize indices, i32 "
+                                      "block_delta, recursion with fuel) never panics / runs out of fuel and equals the suffix-style "
+                                      "scanners FlowScan.find_commands / FlowFn.find_commands_nr below 2^31 instructions"}
+    return ok
+
+
+Check.source_tie = _source_tie_with_findcmds_ix
+
+
+# --- appended (builder B20): translation tie "collections" for C12 — the handle helpers mutate_list / mutate_map / mutate_set of
+# duckscript_sdk/src/utils/state.rs and the `run` functions of the native collection commands
+# (duckscript_sdk/src/sdk/std/collections/*/mod.rs; lib/gen/collections_gen.py -> coq/generated/GenCollectionsFn.v, proofs
+# coq/theories/CollectionsGenTie.v, wrappers coq/props/SrcCollections.v).  Same scheme as PARSER_REST_TIES / STRINGS_CMD_TIES: the
+# tie key's own flag (gen_collections_understood) only says the generator ran; every function has its OWN flag in
+# GenCollectionsFn.v, a function the translator does not understand any more gets a stub, its theorem (stated under `flag =
+# true`) holds vacuously, and source_tie("collections") then reports exactly that function's tie as inactive (NOTE + evidence)
+# and does not count its theorem as discharged.  (A command that calls a mutate_* helper which is not understood is not
+# understood either: the generator gives it a stub.)
+COLLECTIONS_FN_TIES = [
+    ("gen_mutate_%s_understood" % _k, "mutate_%s" % _k, "duckscript_sdk/src/utils/state.rs::mutate_%s" % _k,
+     ["Src_collections_mutate_%s" % _k]) for _k in ("list", "map", "set")
+] + [
+    ("gen_cmd_%s_understood" % _c, _c, "duckscript_sdk/src/sdk/std/collections/%s/mod.rs::run" % ("set" if _c == "set_new" else _c),
+     ["Src_collections_%s" % _c])
+    for _c in ["array", "range", "array_push", "array_pop", "array_get", "array_set", "array_remove", "array_clear",
+               "array_length", "map", "map_put", "map_get", "map_remove", "map_size", "map_keys", "map_clear", "set_new",
+               "set_put", "set_remove", "set_contains", "set_size", "set_clear", "set_to_array", "is_array", "is_map", "is_set"]
+] + [
+    # its callee remove_handle_recursive is NOT translated: the translation calls the model's release_recursive there
+    ("gen_cmd_release_understood", "release", "duckscript_sdk/src/sdk/std/release/mod.rs::run", ["Src_collections_release"]),
+]
+Check.SRC_TIES.update({
+    "collections": ("GenCollectionsFn.v", "gen_collections_understood", "props/SrcCollections.vo", "DSP.SrcCollections", [],
+                    "duckscript_sdk/src/utils/state.rs::mutate_list / mutate_map / mutate_set and run of the native collection commands"),
+})
+
+
+def _collections_register():
+    base = dict(getattr(Check, "SRC_TIES_BASE", {}))
+    base["collections"] = []
+    Check.SRC_TIES_BASE = base
+    if "collections" not in getattr(Check, "SRC_TIES_PARTIAL", ()):
+        Check.SRC_TIES_PARTIAL = tuple(getattr(Check, "SRC_TIES_PARTIAL", ())) + ("collections",)
+
+
+_collections_register()
+Check.SRC_TIES["collections"][4].extend(t for _f, _n, _w, _ts in COLLECTIONS_FN_TIES for t in _ts)
+_source_tie_before_collections_fns = Check.source_tie
+
+
+def _source_tie_with_collections_fns(self, which):
+    if which == "collections":
+        _collections_register()       # robust against a later block that re-assigns the two class attributes
+    ok = _source_tie_before_collections_fns(self, which)
+    if which != "collections":
+        return ok
+    try:
+        text = open(os.path.join(ROOT, "coq", "generated", "GenCollectionsFn.v")).read()
+    except OSError:
+        text = ""
+    info = self.coverage.setdefault("source_translation", {})
+    fns = {}
+    for flag, fn, what, thms in COLLECTIONS_FN_TIES:
+        if re.search(r"Definition %s : bool := true\." % flag, text) is not None:
+            fns[fn] = {"active": True, "theorems": thms}
+            continue
+        m = re.search(r"\(\* NOT UNDERSTOOD %s: (.*?) \*\)" % re.escape(fn), text, re.S)
+        why = m.group(1) if m else "generated file missing"
+        fns[fn] = {"active": False, "reason": why}
+        names = ["DSP.SrcCollections.%s" % t for t in thms]
+        self.obligations[:] = [o for o in self.obligations if o not in names]
+        self.discharged[:] = [o for o in self.discharged if o not in names]
+        if isinstance(info.get("collections", {}).get("theorems"), list):
+            info["collections"]["theorems"] = [t for t in info["collections"]["theorems"] if t not in thms]
+        print("NOTE: property=%s translation tie for %s is inactive on this tree (translator: %s); "
+              "the correspondence run is the only tie for it in this run" % (self.prop, what, why), flush=True)
+    info["collections_fns"] = {"file": "coq/generated/GenCollectionsFn.v", "functions": fns,
+                               "meaning": "each listed function: the hand model (Collections.v: mutate_list / mutate_map / mutate_set, "
+                                          "cmd_<name>) equals the mechanical translation of the current source for all keys, handle "
+                                          "tables, closures, argument vectors, states and oracles; each wrong-kind arm of mutate_* puts "
+                                          "the value back; every command translation equals Done of the specification's step (every "
+                                          "arguments[i] / list[i] / Vec::remove an explicit Panic arm, never reached) (one flag per "
+                                          "function); the callee of `release`, remove_handle_recursive, is NOT translated (the model's "
+                                          "release_recursive stands for it)"}
+    return ok
+
+
+Check.source_tie = _source_tie_with_collections_fns
